@@ -7,17 +7,7 @@ Open Scope Z_scope.
 (* ------------------------------------------------------------------------------------------ *)
 (* facts about the generated _process_event table and event constructors                       *)
 (* ------------------------------------------------------------------------------------------ *)
-Lemma effects_resolve_indep effs : forall r,
-  effects_resolve false effs = true -> effects_resolve r effs = true.
-Proof.
-  induction effs as [|a effs IH]; intros r H.
-  - discriminate H.
-  - destruct a; simpl in *; try (apply IH; exact H). exact H.
-Qed.
-
-(* the UnplugEvent queued while a plugin is processed is itself a well-formed pending event *)
-Lemma unplug_sets_resolve e : sets_resolve (e_type (mk_unplug e)) = true.
-Proof. reflexivity. Qed.
+(* the UnplugEvent queued while a plugin is processed queues nothing itself *)
 Lemma unplug_pushes_nothing e : pushes_unplug (e_type (mk_unplug e)) = false.
 Proof. reflexivity. Qed.
 Lemma unplug_ts e : e_ts (mk_unplug e) = e_dep e.
@@ -33,6 +23,7 @@ Section ResumeProofs.
 
   Notation simT := (sim QI St).
   Notation runG := (run_gen QI St Sched R sched).
+  Notation pend := (pending_resolve QI St).
   Notation run := (run QI St Sched R sched).
   Notation popp := (pop_and_process QI St Sched R).
   Notation handle := (handle_event QI St Sched R).
@@ -81,12 +72,6 @@ Section ResumeProofs.
   Lemma handle_iter (s : simT) e : s_iter (handle s e) = s_iter s.
   Proof. unfold handle_event, process_event. rewrite effects_iter. reflexivity. Qed.
 
-  Lemma handle_res (s : simT) e : sets_resolve (e_type e) = true -> s_resolve (handle s e) = true.
-  Proof.
-    intro H. unfold handle_event, process_event. rewrite effects_res.
-    apply effects_resolve_indep. exact H.
-  Qed.
-
   Lemma handle_inv (s : simT) e : inv (s_queue s) -> inv (s_queue (handle s e)).
   Proof. intro H. unfold handle_event, process_event. apply effects_inv. exact H. Qed.
 
@@ -106,11 +91,10 @@ Section ResumeProofs.
     s_iter s = t -> later t s ->
     Forall (fun e => e_ts e = t /\ ev_ok e) evs ->
     let s' := fold_left handle evs s in
-    s_iter s' = t /\ later t s' /\ (evs <> [] -> s_resolve s' = true)
-    /\ (evs = [] -> s' = s).
+    s_iter s' = t /\ later t s'.
   Proof.
     induction evs as [|e evs IH]; intros s Hi Hl Hev; simpl.
-    - repeat split; auto; try apply Hl; intro H; congruence.
+    - split; auto.
     - inversion Hev as [|? ? [Hts Hok] Hev']; subst.
       destruct Hl as [Hinv Hl].
       assert (Hi' : s_iter (handle s e) = s_iter s) by apply handle_iter.
@@ -119,25 +103,19 @@ Section ResumeProofs.
         apply Forall_forall. intros x Hx. apply handle_elems in Hx; [|exact Hinv].
         destruct Hx as [Hx | [Hx Hp]].
         - rewrite Forall_forall in Hl. apply Hl; exact Hx.
-        - subst x. destruct Hok as [_ Hstay]. specialize (Hstay Hp).
+        - subst x. specialize (Hok Hp).
           split.
           + rewrite unplug_ts. lia.
-          + split; [apply unplug_sets_resolve | rewrite unplug_pushes_nothing; discriminate]. }
-      destruct (IH (handle s e) Hi' Hl' Hev') as (A & B & C & D).
-      repeat split; auto; try apply B.
-      + intros _. destruct evs as [|e2 evs2].
-        * simpl. apply handle_res. apply Hok.
-        * apply C. discriminate.
-      + intro H; discriminate H.
+          + intro Hp'. rewrite unplug_pushes_nothing in Hp'. discriminate Hp'. }
+      apply (IH (handle s e) Hi' Hl' Hev').
   Qed.
 
   (* after the current events have been popped and processed: iteration unchanged, every pending
-     event is strictly later, and if anything was processed _resolve is set *)
+     event is strictly later *)
   Lemma popp_spec (s : simT) :
     qok s ->
     let s1 := popp s in
-    s_iter s1 = s_iter s /\ later (s_iter s) s1
-    /\ (s_resolve s1 = true \/ s1 = s).
+    s_iter s1 = s_iter s /\ later (s_iter s) s1.
   Proof.
     intros [Hinv Hq]. unfold pop_and_process.
     destruct (q_pop QI (s_iter s) (s_queue s)) as [evs q'] eqn:Ep.
@@ -152,11 +130,7 @@ Section ResumeProofs.
     assert (Hev : Forall (fun e => e_ts e = s_iter s /\ ev_ok e) evs).
     { apply Forall_forall. intros x Hx. rewrite Forall_forall in Hevs.
       destruct (Hevs x Hx) as [Hle Hin]. destruct (Hq x Hin) as [Hge Hok]. split; [lia | exact Hok]. }
-    destruct (fold_handle (s_iter s) evs (with_queue QI St q' s) eq_refl Hl Hev) as (A & B & C & D).
-    split; [exact A|]. split; [exact B|].
-    destruct evs as [|e evs'].
-    - right. rewrite (D eq_refl). rewrite (ql_pop_nil QI inv QL _ _ _ Hinv Ep). apply with_queue_self.
-    - left. apply C. discriminate.
+    exact (fold_handle (s_iter s) evs (with_queue QI St q' s) eq_refl Hl Hev).
   Qed.
 
   Lemma later_popp_id (s : simT) : later (s_iter s) s -> popp s = s.
@@ -174,54 +148,58 @@ Section ResumeProofs.
     destruct (H x Hx). split; [lia | assumption].
   Qed.
 
-  (* ---- the re-entry lemma: the state left behind by a raising scheduler, entered at the loop
-     head, passes the loop test, pops nothing, and is due for a recomputation again ---- *)
+  (* ---- the re-entry lemma: the state left behind by a raising scheduler (events processed,
+     `_resolve = True` pending), entered at the loop head, passes the loop test, pops nothing, is
+     due for a recomputation again, and setting the pending resolve again changes nothing ---- *)
   Lemma reentry (s : simT) :
-    qok s -> Run_guard (s_resolve s) (q_empty QI (s_queue s)) = true ->
-    let s1 := popp s in
-    Run_guard (s_resolve s1) (q_empty QI (s_queue s1)) = true /\ popp s1 = s1 /\ qok s1.
+    qok s ->
+    let sc := pend (popp s) in
+    Run_guard (s_resolve sc) (q_empty QI (s_queue sc)) = true /\ popp sc = sc
+    /\ due sc = true /\ pend sc = sc /\ qok sc.
   Proof.
-    intros Hq Hg. destruct (popp_spec s Hq) as (Hi & Hl & Hr). cbv zeta.
-    split; [|split].
-    - destruct Hr as [Hr | Hr].
-      + unfold Run_guard. rewrite Hr. apply orb_true_r.
-      + rewrite Hr. exact Hg.
-    - apply later_popp_id. rewrite Hi. exact Hl.
-    - apply (later_qok (s_iter s)); [exact Hl | rewrite Hi; lia].
+    intros Hq. destruct (popp_spec s Hq) as (Hi & Hl). cbv zeta.
+    assert (Hlc : later (s_iter (pend (popp s))) (pend (popp s))) by (simpl; rewrite Hi; exact Hl).
+    split; [|split; [|split; [|split]]].
+    - unfold Run_guard. simpl. apply orb_true_r.
+    - apply later_popp_id. exact Hlc.
+    - reflexivity.
+    - reflexivity.
+    - apply (later_qok (s_iter s)); [exact Hl | simpl; rewrite Hi; lia].
   Qed.
 
   (* ---- unfolding, fuel monotonicity ---- *)
-  Lemma run_S guard f k (s : simT) :
-    runG guard (S f) k s =
+  Lemma run_S guard pre f k (s : simT) :
+    runG guard pre (S f) k s =
     if guard (s_resolve s) (q_empty QI (s_queue s)) then
       let s1 := popp s in
       if due s1 then
+        let s1r := pre s1 in
         match k with
-        | Some O => Raised s1
-        | Some (S k') => runG guard f (Some k') (adv (aft (sched s1) s1))
-        | None => runG guard f None (adv (aft (sched s1) s1))
+        | Some O => Raised s1r
+        | Some (S k') => runG guard pre f (Some k') (adv (aft (sched s1r) s1r))
+        | None => runG guard pre f None (adv (aft (sched s1r) s1r))
         end
-      else runG guard f k (adv s1)
+      else runG guard pre f k (adv s1)
     else Done s.
   Proof. reflexivity. Qed.
 
   Definition finished (o : outcome QI St) : Prop :=
     match o with OutOfFuel _ => False | _ => True end.
 
-  Lemma run_mono guard : forall f k (s : simT),
-    finished (runG guard f k s) -> runG guard (S f) k s = runG guard f k s.
+  Lemma run_mono guard pre : forall f k (s : simT),
+    finished (runG guard pre f k s) -> runG guard pre (S f) k s = runG guard pre f k s.
   Proof.
     induction f as [|f IH]; intros k s H.
     - simpl in H. contradiction.
-    - rewrite (run_S guard (S f)). rewrite (run_S guard f) in *.
+    - rewrite (run_S guard pre (S f)). rewrite (run_S guard pre f) in *.
       destruct (guard (s_resolve s) (q_empty QI (s_queue s))); [|reflexivity].
       cbv zeta in *. destruct (due (popp s)).
       + destruct k as [[|k']|]; [reflexivity | apply IH; exact H | apply IH; exact H].
       + apply IH; exact H.
   Qed.
 
-  Lemma run_mono_done guard f k (s x : simT) :
-    runG guard f k s = Done x -> runG guard (S f) k s = Done x.
+  Lemma run_mono_done guard pre f k (s x : simT) :
+    runG guard pre f k s = Done x -> runG guard pre (S f) k s = Done x.
   Proof. intro H. rewrite run_mono; [exact H | rewrite H; exact I]. Qed.
 
   Lemma adv_aft_qok (s1 : simT) sch : later (s_iter s1) s1 -> qok (adv (aft sch s1)).
@@ -248,22 +226,24 @@ Section ResumeProofs.
     - rewrite run_S in Hc, Hr.
       destruct (Run_guard (s_resolve s) (q_empty QI (s_queue s))) eqn:G; [|discriminate Hc].
       cbv zeta in Hc, Hr.
-      destruct (reentry s Hq G) as (G1 & P1 & Q1).
-      destruct (popp_spec s Hq) as (Hi & Hl & _).
+      destruct (reentry s Hq) as (G1 & P1 & D1 & I1 & Q1).
+      destruct (popp_spec s Hq) as (Hi & Hl).
       assert (Hl1 : later (s_iter (popp s)) (popp s)) by (rewrite Hi; exact Hl).
+      assert (Hl1r : later (s_iter (pend (popp s))) (pend (popp s))) by exact Hl1.
       destruct (due (popp s)) eqn:D.
       + destruct k as [|k'].
         * inversion Hc; subst sc. split; [|exact Q1].
-          rewrite run_S. rewrite G1. cbv zeta. rewrite P1, D. exact Hr.
-        * destruct (IH k' _ sc sref (adv_aft_qok _ _ Hl1) Hc Hr) as [A B].
+          rewrite run_S. rewrite G1. cbv zeta. rewrite P1, D1, I1. exact Hr.
+        * destruct (IH k' _ sc sref (adv_aft_qok _ _ Hl1r) Hc Hr) as [A B].
           split; [apply run_mono_done; exact A | exact B].
       + destruct (IH k _ sc sref (adv_qok _ Hl1) Hc Hr) as [A B].
         split; [apply run_mono_done; exact A | exact B].
   Qed.
 
   (* an interrupted run either raises or is the uninterrupted run (its call k is never reached) *)
-  Lemma crash_or_same guard : forall fuel k (s : simT),
-    (exists sc, runG guard fuel (Some k) s = Raised sc) \/ runG guard fuel (Some k) s = runG guard fuel None s.
+  Lemma crash_or_same guard pre : forall fuel k (s : simT),
+    (exists sc, runG guard pre fuel (Some k) s = Raised sc)
+    \/ runG guard pre fuel (Some k) s = runG guard pre fuel None s.
   Proof.
     induction fuel as [|f IH]; intros k s.
     - right; reflexivity.
@@ -280,7 +260,7 @@ Section ResumeProofs.
   Proof.
     induction ks as [|k ks IH]; intros fuel s sref Hq Hr; simpl.
     - exact Hr.
-    - destruct (crash_or_same Run_guard fuel k s) as [[sc Hc] | Hs].
+    - destruct (crash_or_same Run_guard pend fuel k s) as [[sc Hc] | Hs].
       + unfold Resume.run in *. rewrite Hc.
         destruct (resume_one fuel k s sc sref Hq Hc Hr) as [A B].
         apply IH; assumption.
@@ -392,7 +372,7 @@ Lemma ex_qok : queue_ok ListQ dstate (init_sim_list ex_events (Some 2)).
 Proof.
   unfold queue_ok.
   apply Forall_forall. intros x Hx. vm_compute in Hx.
-  repeat (destruct Hx as [Hx | Hx]; [subst x; vm_compute; repeat split; congruence|]).
+  repeat (destruct Hx as [Hx | Hx]; [subst x; vm_compute; split; [congruence|intro; (reflexivity || discriminate)]|]).
   contradiction.
 Qed.
 
@@ -406,7 +386,7 @@ Definition old_res := Eval vm_compute in drun_old 5 None (state_of old_crash).
 Lemma old_witness_qok : queue_ok HeapQ dstate old_witness.
 Proof.
   unfold queue_ok. apply Forall_forall. intros x Hx. vm_compute in Hx.
-  repeat (destruct Hx as [Hx | Hx]; [subst x; vm_compute; repeat split; congruence|]).
+  repeat (destruct Hx as [Hx | Hx]; [subst x; vm_compute; split; [congruence|intro; (reflexivity || discriminate)]|]).
   contradiction.
 Qed.
 
@@ -437,6 +417,42 @@ Lemma old_witness_new_guard_ok :
   /\ drun 5 None old_witness = Done (state_of new_ref)
   /\ drun 5 None (state_of new_crash) = Done (state_of new_ref)
   /\ s_iter (state_of new_ref) = 2.
+Proof. repeat split; vm_compute; reflexivity. Qed.
+
+(* FIXED FINDING (kept as a regression): an event of the base class Event (event_type "") is
+   processed without setting _resolve.  If it drains the queue in a period whose recomputation is
+   due only because of max_recompute and the scheduler raises there, the loop WITHOUT
+   `self._resolve = True` in front of the scheduler call returns at once when run() is called
+   again; with that statement the same history resumes to the reference run. *)
+Definition untyped_witness : dsim HeapQ :=
+  init_sim [plug 0 0 0 2; mk_event "Event" 4 (-1) (-1) (-1)] (Some 1).
+Definition ut_ref := Eval vm_compute in drun_nopre 8 None untyped_witness.
+Definition ut_crash := Eval vm_compute in drun_nopre 8 (Some 4%nat) untyped_witness.
+Definition ut_res := Eval vm_compute in drun_nopre 8 None (state_of ut_crash).
+
+Lemma no_pending_resolve_refuted :
+  exists (k fuel : nat) (sc sref sres : dsim HeapQ),
+    queue_ok HeapQ dstate untyped_witness
+    /\ drun_nopre fuel None untyped_witness = Done sref
+    /\ drun_nopre fuel (Some k) untyped_witness = Raised sc
+    /\ drun_nopre fuel None sc = Done sres
+    /\ s_iter sref = 5 /\ s_iter sres = 4.
+Proof.
+  exists 4%nat, 8%nat, (state_of ut_crash), (state_of ut_ref), (state_of ut_res).
+  split.
+  { unfold queue_ok. apply Forall_forall. intros x Hx. vm_compute in Hx.
+    repeat (destruct Hx as [Hx | Hx]; [subst x; vm_compute; split; [congruence|intro; (reflexivity || discriminate)]|]).
+    contradiction. }
+  repeat split; vm_compute; reflexivity.
+Qed.
+
+Definition utn_ref := Eval vm_compute in drun 8 None untyped_witness.
+Definition utn_crash := Eval vm_compute in drun 8 (Some 4%nat) untyped_witness.
+Lemma untyped_witness_resumes :
+  drun 8 None untyped_witness = Done (state_of utn_ref)
+  /\ drun 8 (Some 4%nat) untyped_witness = Raised (state_of utn_crash)
+  /\ drun 8 None (state_of utn_crash) = Done (state_of utn_ref)
+  /\ s_iter (state_of utn_ref) = 5.
 Proof. repeat split; vm_compute; reflexivity. Qed.
 
 (* ------------------------------------------------------------------------------------------ *)
